@@ -78,14 +78,14 @@ def record(prog, rng_seed):
             elif op == "choice":
                 n = call["n"]; r = g.choice(list(range(n))); evs.append(dict(i=i, op="choice", n=n, ret=r))
             elif op == "choicew":
-                w = call["w"]; seq = ["m%d" % k for k in range(len(w))]
+                w = call["w"]; ids = call.get("ids") or list(range(len(w))); seq = ["m%d" % k for k in ids]     # ids may repeat: the same member listed twice with different weights
                 if call.get("reuse"):          # callers may refill and pass the SAME list object again: values, not identity, matter
                     buf = wbuf.setdefault((i, len(w)), list(w)); buf[:] = w; w = buf
                 if call.get("plain"):      # choice(seq, weights): only the member comes back
-                    m = g.choice(seq, w); r = seq.index(m); rw = w[r]
+                    m = g.choice(seq, w); rw = -1
                 else:
-                    m, rw = g.choicew(seq, w); r = seq.index(m)
-                evs.append(dict(i=i, op="choicew", w=list(w), ret=r, rw=rw))
+                    m, rw = g.choicew(seq, w)
+                evs.append(dict(i=i, op="choicew", w=list(w), sq=list(ids), rm=int(m[1:]), rw=rw))
             elif op == "gauss":
                 x = g.gauss(call.get("mu", 0), call.get("sigma", 1)); evs.append(dict(i=i, op="gauss", k=1))
                 if not math.isfinite(x): probs.append(("gauss:not-finite", "gauss returned %r" % x))
@@ -127,7 +127,8 @@ def rand_prog(rng, ncalls=20):
         elif op == "choicew":
             w = [rng.choice([0, 0, 1, 2, 3]) for _ in range(rng.randrange(1, 5))]
             if sum(w) == 0: w[rng.randrange(len(w))] = 1
-            prog.append(dict(i=i, op=op, w=w, plain=rng.random() < .4, reuse=rng.random() < .6))
+            ids = [rng.randrange(2) for _ in w] if rng.random() < .35 else None       # equal members at several positions
+            prog.append(dict(i=i, op=op, w=w, ids=ids, plain=rng.random() < .4, reuse=rng.random() < .6))
         elif op == "pickle":
             if i == 0: continue
             j = 5; prog.append(dict(i=i, op=op, j=j))
@@ -147,7 +148,7 @@ def directed():
             pre = [dict(i=1, op="random")] * (pos - 1)
             for call in (dict(op="random"), dict(op="random", min=-3, max=7.25), dict(op="randint", a=-2, b=17), dict(op="randints", n=2, a=0, b=5), dict(op="shuffle", n=4),
                          dict(op="choice", n=3), dict(op="choicew", w=[0, 2, 1]), dict(op="choicew", w=[0, 0, 3], plain=True), dict(op="choicew", w=[1, 0]),
-                         dict(op="choicew", w=[2, 1, 0], plain=True), dict(op="gauss"), dict(op="randoms", n=2)):
+                         dict(op="choicew", w=[2, 1, 0], plain=True), dict(op="choicew", w=[0, 3, 7], ids=[0, 1, 0]), dict(op="choicew", w=[1, 2, 3], ids=[1, 1, 1]), dict(op="gauss"), dict(op="randoms", n=2)):
                 progs.append([dict(i=1, op="new", seed=seed)] + pre + [dict(call, i=1), dict(i=1, op="randint", a=0, b=9)])
     # gauss: the second uniform critical too, and gauss after a pending value
     for crit in (0, M - 1):
